@@ -47,7 +47,10 @@ INTERACT = ["a:x", "a:scale(x)", "a:bs(x, df=3)", "a:g", "C(a, contr.sum):poly(x
 QUOTED_AND_SHARED = ['bs(x, df=4, extrapolation="clip")', 'C(a, contr.treatment("q"))', 'cr(x, df=4, constraints="center")',
                      "scale(x) + scale(x):a", "scale(x) + scale(x, ddof=0) + center(x)", "center(bs(x, df=3))",
                      "scale(cr(x, df=3))", "bs(x, df=3) + bs(w, df=3) + bs(x, df=4)", "C(a) + C(a, contr.sum):x",
-                     "poly(x, 2) + poly(x, 3)", "a + C(a, contr.helmert):g"]
+                     "poly(x, 2) + poly(x, 3)", "a + C(a, contr.helmert):g",
+                     # stateful transforms over multi-column (2-D / dict-valued) inner results
+                     "scale(poly(x, 2, raw=True))", "standardize(bs(x, df=4))", "center(cc(x, df=3)):a",
+                     "scale(poly(x, 3), ddof=0) + center(cr(w, df=3))"]
 # numeric-literal multipliers: the scale of a term is part of the recorded structure
 LITERAL_SCALE = ["3:x", "a:2", "0.5:scale(x):a", "2:bs(x, df=3) - 1", "x + 2:z", "2.5:a - 1", "x:3:z", "0.5:a:x + a",
                  "10:center(x)", "3:a:C(g, contr.sum)", "2:poly(x, 2) + 0.25:C(a, contr.helmert)", "4:cr(x, df=3):g",
